@@ -11,9 +11,9 @@ open MdModel MdModel.Gen.Layouts MdModel.Gen.LayoutsX
 
 /-! ### the Linux-maps operation: reader + lookups -/
 
-theorem readMapsOut_panic_iff (s : Bytes) : IsPanic (readMapsOut s) ↔ MapsHostile s.toList := by
-  unfold readMapsOut
-  rw [isPanic_bind, readLinuxMapsX_panic_iff]
+theorem readMapsOutG_panic_iff (g : Bool) (s : Bytes) : IsPanic (readMapsOutG g s) ↔ g = false ∧ MapsHostile s.toList := by
+  unfold readMapsOutG
+  rw [isPanic_bind, readLinuxMapsG_panic_iff]
   constructor
   · intro h
     cases h with
@@ -21,21 +21,21 @@ theorem readMapsOut_panic_iff (s : Bytes) : IsPanic (readMapsOut s) ↔ MapsHost
     | inr h =>
       exfalso
       obtain ⟨m, hm, hp⟩ := h
-      have hwf := (readLinuxMapsX_ok hm).1
+      have hwf := (readLinuxMapsX_ok (readLinuxMapsG_ok hm)).1
       rw [isPanic_bind] at hp
       cases hp with
       | inl hp => exact (noPanic_iff _).mp (mapsProbes_safe (B := 0) m hwf _).1 hp
       | inr hp => obtain ⟨_, _, hp⟩ := hp; exact isPanic_pure _ hp
   · intro h; exact .inl h
 
-theorem readMapsOut_allocsLe (s : Bytes) : AllocsLe (32 * s.size) (readMapsOut s) := by
-  unfold readMapsOut
-  refine allocsLe_bind (readLinuxMapsX_allocsLe s) (fun m _ => ?_)
+theorem readMapsOutG_allocsLe (g : Bool) (s : Bytes) : AllocsLe (32 * s.size) (readMapsOutG g s) := by
+  unfold readMapsOutG
+  refine allocsLe_bind (readLinuxMapsG_allocsLe g s) (fun m _ => ?_)
   refine allocsLe_bind (allocsLe_of_nil (mapsProbes_allocs m _)) (fun _ _ => allocsLe_pure _)
 
-theorem cnt_readMapsOut (s : Bytes) : CntLe (3 * s.size + 5) (readMapsOut s) := by
-  unfold readMapsOut
-  refine (cnt_bind (cnt_readLinuxMapsX s) (C := 0) (fun m _ => ?_)).mono (by omega)
+theorem cnt_readMapsOutG (g : Bool) (s : Bytes) : CntLe (4 * s.size + 6) (readMapsOutG g s) := by
+  unfold readMapsOutG
+  refine (cnt_bind (cnt_readLinuxMapsG g s) (C := 0) (fun m _ => ?_)).mono (by omega)
   refine cnt_bind (A := 0) ?_ (C := 0) (fun _ _ => cnt_pure _)
   rw [cnt_zero_iff]; exact mapsProbes_allocs m _
 
